@@ -117,6 +117,58 @@ pub fn stream_lzma2(k: usize, extra: usize, flush_every: usize, incompressible: 
     (comp, input)
 }
 
+/// Stream written by the real single-threaded writer from a pattern: one entry per unit, each a list of
+/// (incompressible?, length) segments that are written and flushed one by one, so that a unit holds a chosen
+/// sequence of chunk kinds (uncompressed / LZMA with and without state or property resets). The segment lengths
+/// of every unit but the last should add up to UNIT.
+pub fn stream_lzma2_pattern(units: &[Vec<(bool, usize)>], preset: Option<&[u8]>) -> (Vec<u8>, Vec<u8>) {
+    let mut o = lzma2_opts(UNIT as u64);
+    if let Some(p) = preset {
+        o.lzma_options.preset_dict = Some(p.to_vec());
+    }
+    let mut w = LZMA2Writer::new(Vec::new(), o);
+    let mut input = vec![];
+    let mut salt = 0usize;
+    for u in units {
+        for &(raw, n) in u {
+            salt += 1;
+            let seg = if raw { gen::build(&[Seg::R(n)], 7 + salt as u64) } else { text_input(n, 13 * salt) };
+            w.write_all(&seg).unwrap();
+            w.flush().unwrap();
+            input.extend_from_slice(&seg);
+        }
+    }
+    let comp = w.finish().unwrap();
+    (comp, input)
+}
+
+/// The control bytes of a well-formed LZMA2 stream, as text (for scenario names / evidence).
+pub fn controls(stream: &[u8]) -> String {
+    let mut i = 0;
+    let mut out = vec![];
+    while i < stream.len() {
+        let c = stream[i];
+        if c == 0 {
+            break;
+        }
+        out.push(format!("{c:02x}"));
+        if c >= 0x80 {
+            if i + 5 > stream.len() {
+                break;
+            }
+            let cs = u16::from_be_bytes([stream[i + 3], stream[i + 4]]) as usize + 1;
+            i += 5 + if c >= 0xC0 { 1 } else { 0 } + cs;
+        } else {
+            if i + 3 > stream.len() {
+                break;
+            }
+            let n = u16::from_be_bytes([stream[i + 1], stream[i + 2]]) as usize + 1;
+            i += 3 + n;
+        }
+    }
+    out.join(".")
+}
+
 pub fn st_decode_lzma2(stream: &[u8], preset: Option<&[u8]>) -> Result<Vec<u8>, String> {
     let mut r = LZMA2Reader::new(stream, DICT, preset);
     let mut out = vec![];
@@ -429,6 +481,23 @@ fn run_reader<R: Read>(s: &Scenario, mut r: R, count: impl Fn(&R) -> u64) {
         if out.len() > (1 << 22) {
             result = Some(Err("verif: endless output".into()));
             break;
+        }
+    }
+    // A caller may call read again after an error or after the end: those calls must return too
+    // (whatever they return), and must not hand out more data after the end.
+    if result.is_some() && calls < s.drop_after {
+        for k in 1..=2 {
+            obs_phase(format!("again#{k}"));
+            match r.read(&mut buf) {
+                Ok(0) => obs_call("again:ok:0".into()),
+                Ok(n) => {
+                    obs_call(format!("again:ok:{n}"));
+                    if matches!(result, Some(Ok(_))) {
+                        result = Some(Err(format!("verif: read returned {n} more bytes after it had returned 0")));
+                    }
+                }
+                Err(e) => obs_call(format!("again:err:{}", errtext(&e))),
+            }
         }
     }
     let units = count(&r);
